@@ -1,6 +1,7 @@
 package main
 
 import (
+	"runtime/pprof"
 	"encoding/json"
 	"flag"
 	"fmt"
@@ -104,6 +105,15 @@ func main() {
 	}
 	switch os.Args[1] {
 	case "check":
+		if p := os.Getenv("SYMGO_PPROF"); p != "" { // CPU profile of a check run (development aid)
+			if f, err := os.Create(p); err == nil {
+				pprof.StartCPUProfile(f)
+				code := cmdCheck(os.Args[2:])
+				pprof.StopCPUProfile()
+				f.Close()
+				os.Exit(code)
+			}
+		}
 		os.Exit(cmdCheck(os.Args[2:]))
 	case "replay":
 		os.Exit(cmdReplay(os.Args[2:]))
